@@ -308,3 +308,174 @@ def c15_r5(ctx):
         txt = rets[0] if rets else ""
         ctx.ob(f, w.split("(")[0] + "([self, " in txt and txt.endswith(".normalize()") and
                (m != "__sub__" or "Not(" in txt), "%s builds %s and normalizes" % (m, w), detail=txt)
+
+
+def _self_stores(f):
+    """attribute names (and `attr[]` for item stores) of `self` written by the function, incl. setattr(self, ...)"""
+    out = []
+    al = norm.aliases(f.node) if isinstance(f.node, (ast.FunctionDef, ast.AsyncFunctionDef)) else {}
+    for x in ast.walk(f.node):
+        tgs = []
+        if isinstance(x, ast.Assign):
+            tgs = x.targets
+        elif isinstance(x, (ast.AugAssign, ast.AnnAssign)):
+            tgs = [x.target]
+        elif isinstance(x, ast.Delete):
+            tgs = x.targets
+        elif isinstance(x, ast.Call) and isinstance(x.func, ast.Name) and x.func.id == "setattr" and x.args and \
+                isinstance(x.args[0], ast.Name) and x.args[0].id == "self":
+            out.append(("setattr", x))
+        elif isinstance(x, ast.Call) and isinstance(x.func, ast.Attribute) and x.func.attr in ("update", "setdefault", "__setitem__") and \
+                norm.canon(x.func.value) == "self.__dict__":
+            out.append(("__dict__", x))
+        for t in tgs:
+            for y in ast.walk(t):
+                if isinstance(y, ast.Attribute) and isinstance(y.ctx, (ast.Store, ast.Del)) and isinstance(y.value, ast.Name) and y.value.id == "self":
+                    out.append((y.attr, x))
+                if isinstance(y, ast.Subscript) and isinstance(y.ctx, (ast.Store, ast.Del)):
+                    b = y.value
+                    if isinstance(b, ast.Name) and b.id in al:
+                        b = al[b.id]  # cache = self._cache ; cache[k] = v
+                    if isinstance(b, ast.Attribute) and isinstance(b.value, ast.Name) and b.value.id == "self":
+                        out.append((b.attr + "[]", x))
+        # in-place container mutation through self or an alias of a self attribute
+        if isinstance(x, ast.Call) and isinstance(x.func, ast.Attribute) and x.func.attr in MUTATORS:
+            b = x.func.value
+            if isinstance(b, ast.Name) and b.id in al:
+                b = al[b.id]
+            if isinstance(b, ast.Attribute) and isinstance(b.value, ast.Name) and b.value.id == "self":
+                out.append((b.attr + "." + x.func.attr + "()", x))
+    return out
+
+
+CONSTRUCTION_METHODS = ("__init__", "__setstate__", "__new__")
+MUTATORS = ("append", "extend", "insert", "add", "update", "setdefault", "pop", "popitem", "remove", "discard", "clear", "sort", "reverse")
+
+
+@rule("C15", "R6", "K3", "query objects are immutable: no method other than the constructor stores anything on self",
+      min_instances=40, also=("C01", "C19"),
+      clause="A query object is evaluated against many readers (one per segment, before and after commits); matcher(), "
+             "_btexts(), simplify(), estimate_size(), normalize() ... must depend only on their arguments, so no Query "
+             "method outside __init__/__setstate__ assigns self.<attr>, self.<attr>[...] or setattr(self, ...): a "
+             "memoised expansion would be reused for a different segment or generation.")
+def c15_r6(ctx):
+    prog = ctx.prog
+    qbase = prog.cls("query.qcore.Query")
+    n = 0
+    for cls in [qbase] + prog.subclasses(qbase, strict=True):
+        if cls.short.startswith("query.spans.") and cls.short.endswith("Matcher"):
+            continue
+        wrote = []
+        for m, f in cls.methods.items():
+            if m in CONSTRUCTION_METHODS:
+                continue
+            ctx.saw(f)
+            for attr, node in _self_stores(f):
+                wrote.append("%s() stores self.%s" % (m, attr))
+        n += 1
+        ctx.ob(cls, not wrote, "no method outside the constructor writes to self",
+               detail="; ".join(sorted(set(wrote))) + " -- state kept on a query object leaks from one reader/segment to the next" if wrote else "",
+               loc=cls.loc)
+    # positive control: the detector sees a memoising method
+    sample = ast.parse("class Q:\n    def _btexts(self, r):\n        self._cache[r.generation()] = 1\n        self._memo = 2\n").body[0].body[0]
+
+    class _F(object):
+        node = sample
+    got = sorted(a for a, _ in _self_stores(_F))
+    if got != ["_cache[]", "_memo"]:  # (the sample has no aliases / mutator calls)
+        raise AnalysisError("C15-R6 positive control failed: %s" % got)
+    if n < 40:
+        raise AnalysisError("only %d query classes found" % n)
+
+
+@rule("C15", "R7", "K4", "replace(fieldname, oldtext, newtext) substitutes only in the named field and only the named text",
+      min_instances=4,
+      clause="Every Query.replace override writes `newtext` into the copy only under `<copy>.fieldname == fieldname` and an "
+             "equality of the replaced text with `oldtext` (the sibling implementations Term/FuzzyTerm/Variations/Phrase "
+             "agree); composite queries forward all three arguments unchanged.")
+def c15_r7(ctx):
+    prog = ctx.prog
+    qbase = prog.cls("query.qcore.Query")
+    n = 0
+    for cls in [qbase] + prog.subclasses(qbase, strict=True):
+        f = cls.methods.get("replace")
+        if f is None or len(f.params) != 4:
+            continue
+        n += 1
+        ctx.saw(f)
+        fname, old, new = f.params[1:4]
+        fa = guards.Facts(f)
+        for nd in fa.g.nodes:
+            for frag in cfgmod.node_exprs(nd):
+                uses = [x for x in ast.walk(frag) if isinstance(x, ast.Name) and x.id == new and isinstance(x.ctx, ast.Load)]
+                if not uses:
+                    continue
+                # forwarding to the sub-queries' replace
+                fwd = [c for c in norm.calls_in(frag) if (norm.call_name(c) in ("replace", "methodcaller"))]
+                if fwd:
+                    okf = all([norm.canon(a) for a in c.args[-3:]] == [fname, old, new] for c in fwd)
+                    ctx.ob(f, okf, "forwards (fieldname, oldtext, newtext) unchanged to the sub-queries", loc=ctx.nodeloc(f, fwd[0]))
+                    continue
+                facts = set(fa.at(nd) or ())
+                # facts established by short-circuit tests inside the same statement are not needed here: the stores are statements
+                field_ok = any(p == "T" and "==" in t and ".fieldname" in t and fname in t for (p, t) in facts)
+                text_ok = any(p == "T" and "==" in t and old in t for (p, t) in facts)
+                ctx.ob(f, field_ok and text_ok, "`%s` is stored only under fieldname == %s and text == %s" % (new, fname, old),
+                       detail="facts at the store: %s" % sorted(facts), loc=ctx.nodeloc(f, nd.ast))
+    if n < 4:
+        raise AnalysisError("only %d replace() implementations found" % n)
+
+
+# what a binary operator means when one operand matches nothing (from the class docstrings / docs/source/querylang.rst)
+NULL_TABLE = {
+    "query.compound.AndNot": {"a": "NullQuery", "b": "a", "why": "nothing minus anything is nothing; a minus nothing is a"},
+    "query.compound.AndMaybe": {"a": "NullQuery", "b": "a", "why": "the optional side only adds score"},
+    "query.compound.Require": {"a": "NullQuery", "b": "NullQuery", "why": "documents must match BOTH sides; only a is scored"},
+    "query.compound.Otherwise": {"a": "b", "b": "a", "why": "b is used when a matches nothing"},
+}
+
+
+@rule("C15", "R8", "K8", "binary operators treat a match-nothing operand according to the operator's meaning",
+      min_instances=4,
+      clause="For AndNot, AndMaybe, Require and Otherwise, normalize() evaluated on the two cases 'a normalises to NullQuery' "
+             "and 'b normalises to NullQuery' (path conditions over `x is NullQuery` tests) returns what the table says: "
+             "Require needs both sides, AndNot/AndMaybe keep a when b is empty and are empty when a is.")
+def c15_r8(ctx):
+    prog = ctx.prog
+    from .. import shapes as S
+    for cname, want in NULL_TABLE.items():
+        cls = prog.cls(cname)
+        f = prog.lookup(cls, "normalize")
+        if f is None:
+            raise AnalysisError("%s.normalize vanished" % cname)
+        ctx.saw(f)
+        sym, paths = S.paths(f)
+        d = norm.definitions(f.node)
+        # locals holding the normalised operands
+        an = [k for k, v in d.items() if norm.canon(v) == "self.a.normalize()"]
+        bn = [k for k, v in d.items() if norm.canon(v) == "self.b.normalize()"]
+        if len(an) != 1 or len(bn) != 1:
+            ctx.ob(cls, False, "normalize() normalises both operands into locals", loc=f.loc)
+            continue
+        a_, b_ = an[0], bn[0]
+        atoms = {"(%s is qcore.NullQuery)" % a_: "a", "(%s is qcore.NullQuery)" % b_: "b"}
+        for case in ("a", "b"):
+            env = {"a": case == "a", "b": case == "b"}
+            outs = set()
+            unknown = False
+            for conds, _, node in paths:
+                if node is None or node.ast.value is None:
+                    continue
+                ok = True
+                for pol, txt in conds:
+                    if txt in atoms:
+                        if (pol == "T") != env[atoms[txt]]:
+                            ok = False
+                    elif "NullQuery" in txt:
+                        unknown = True
+                if ok:
+                    v = norm.canon(node.ast.value)
+                    v = {a_: "a", b_: "b", "qcore.NullQuery": "NullQuery"}.get(v, v)
+                    outs.add(v)
+            ctx.ob(cls, not unknown and outs == {want[case]}, "%s normalises to NullQuery -> result %s" % (case, want[case]),
+                   detail="returns %s (%s)" % (sorted(outs), want["why"]), loc=f.loc)
